@@ -261,8 +261,66 @@ def run_gi(case, agg):
         agg.ok(key, f"ok:generate-info:{case['path']}", sample={"blob": bl, "kid": kid, "kw": kw} if kid == 24 and bl == 29 else None)
 
 
+# -- output directory reused (a second run into a directory that already holds longer artifacts) ----------------
+
+def rewrite_cases(tier):
+    out = []
+    for l1, l2 in itertools.product((5000, 16, 0), repeat=2):
+        for sub1, sub2 in itertools.product(("enc", "gi"), repeat=2):
+            out.append({"l1": l1, "l2": l2, "s1": sub1, "s2": sub2})
+    return out
+
+
+def run_rewrite(case, agg):
+    from suit_generator import cmd_encrypt
+    es, ks = escripts()
+    kd = vkeys.key_dir()
+    key = h8("c06r", case)
+    label = f"two runs into one output directory: {case['s1']}({case['l1']}B) then {case['s2']}({case['l2']}B)"
+    with fresh_dir("c06r") as d:
+        od = os.path.join(d, "out")
+        os.makedirs(od)
+        last = None
+        for step, (sub, L, kid, h) in enumerate(((case["s1"], case["l1"], 0x40000000, "sha-512"), (case["s2"], case["l2"], 0x17, "sha-256"))):
+            pt = plaintext(L, step)
+            try:
+                if sub == "enc":
+                    fw = os.path.join(d, f"fw{step}.bin")
+                    open(fw, "wb").write(pt)
+                    cmd_encrypt.main(encrypt_subcommand="encrypt-and-generate", firmware=fw, key_name="aes", key_id=kid, context=kd,
+                                     output_dir=od, hash_alg=h, kw_alg="direct", kms_script=ks, encrypt_script=es)
+                    last = ("enc", pt, kid, h)
+                else:
+                    blob = bytes((i * 7 + step) % 256 for i in range(28 + L))
+                    fb, fk = os.path.join(d, f"b{step}.bin"), os.path.join(d, f"k{step}.bin")
+                    open(fb, "wb").write(blob)
+                    open(fk, "wb").write(b"K" * 40)
+                    cmd_encrypt.main(encrypt_subcommand="generate-info", encrypted_firmware=fb, encrypted_key=fk, key_id=kid, kw_alg="direct",
+                                     output_dir=od, encrypt_script=es)
+                    last = ("gi", blob, kid, None)
+            except Exception as e:
+                agg.viol(f"C06:rewrite-failed/{type(e).__name__}", f"{label}: {type(e).__name__}: {str(e)[:200]}")
+                return
+        kind, data, kid, h = last
+        if kind == "enc":
+            r = check_artifacts(od, vkeys.aes_key("aes"), data, kid, h)
+            problems = r[0] if isinstance(r, tuple) else r
+        else:
+            r = check_artifacts(od, None, None, kid, None, kw="direct", cek=b"K" * 40)
+            problems, info = r if isinstance(r, tuple) else (r, None)
+            if not problems:
+                pi, _ = parse_info(info)
+                if pi["iv"] != data[:12] or open(os.path.join(od, "encrypted_content.bin"), "rb").read() != data[12:]:
+                    problems.append(("generate-info-content", "artifacts are not the byte slices of the supplied blob"))
+    if problems:
+        agg.viol(f"C06:rewrite/{problems[0][0]}", f"{label}: after the second run: " + "; ".join(p[1] for p in problems[:3]))
+    else:
+        agg.ok(key, "ok:rewrite", sample=case if case["l1"] == 5000 and case["l2"] == 16 and case["s1"] == "enc" and case["s2"] == "enc" else None)
+
+
 def plan(tier):
     return [
         CaseStage("encrypt-and-generate", lambda: enc_cases(tier), run_enc, disjoint=True, rule="length x key id x digest alg x entry path"),
         CaseStage("generate-info", lambda: gi_cases(tier), run_gi, disjoint=True, rule="blob length x key id x kw alg x entry path"),
+        CaseStage("output-directory-reused", lambda: rewrite_cases(tier), run_rewrite, rule="ordered pairs of runs (sub-command x length) into one directory"),
     ]
